@@ -54,6 +54,18 @@ class Handle:
         self.state = "attached"
 
 
+class _ModelOperands:
+    """Resolves {"$handle": i} operands to the model's plain value of that handle (for the model side)."""
+
+    def __init__(self, w):
+        self.w = w
+
+    def __getitem__(self, i):
+        hh = self.w.handles[i]
+        rr = self.w.res[self.w.objs[hh.oid].rid]
+        return deep(get_path(rr.model, hh.path)) if has_path(rr.model, hh.path) else None
+
+
 RUN_DIRS = []
 
 
@@ -402,8 +414,7 @@ class World:
             raise Skip()
         handle_nodes = [x.node for x in self.handles]
         args = M.dec(st.get("args", []), handle_nodes)
-        margs = M.dec(st.get("args", []), None)
-        margs = self._model_operands(st.get("args", []), margs)
+        margs = M.dec(st.get("args", []), _ModelOperands(self))
         buffered = self.is_buffered(ob) if hasattr(ob.o, "buffered") else False
 
         # ---- model side (on a copy first: the model is only committed if the library also succeeds) -----
